@@ -183,6 +183,14 @@ package native
 //@ requires n != nil && ic != nil && ic.DAO != nil
 //@ call modifyVoterTurnout requires[turnout] (acc.VoteTo == nil) != (pub == nil) && arg2.v == ite(pub == nil, -(&acc.Balance).v, (&acc.Balance).v) && ncalls(modifyVoterTurnout) == 0
 //@ call distributeGas requires[counted] ncalls(modifyVoterTurnout) == ite((acc.VoteTo == nil) != (pub == nil), 1, 0)
+// The records read at the start (the account's, the new candidate's) are written back as read only
+// BEFORE the tallies start to move; once ModifyAccountVotes has run, a candidate's record is written
+// by ModifyAccountVotes alone - a later raw write of the bytes read earlier would overwrite the
+// decrement of the old vote. The only raw write after that point is the account's own record. Both
+// tally updates happen, the old vote's first.
+//@ call PutStorageItem requires[fresh] ncalls(ModifyAccountVotes) == 0 || (ncalls(ModifyAccountVotes) == 2 && same(arg2, key))
+//@ call ModifyAccountVotes requires[order] (ncalls(ModifyAccountVotes) == 0 && !arg4) || (ncalls(ModifyAccountVotes) == 1 && arg4)
+//@ call ModifyAccountVotes requires[acc] arg1 == acc && arg2 == ic.DAO
 
 // ================= C05: candidate tallies =================
 // A candidate's vote tally is a reading of its stored record (dao.kvVotes). Decoding a record
